@@ -1,4 +1,4 @@
 ---- MODULE MC_loop ----
 EXTENDS MachineRun
-Progs == LoopParams
+Progs == LoopParams(0)
 ====
